@@ -7,6 +7,11 @@ def fb_uw(maxg):
     return ["ext2fs_flush2.0:%d" % (maxg + 1), "test_root.0:6"] + ["main.%d:%d" % (i, nlog + 1) for i in range(8)]
 
 HARNESSES = [
+    dict(name="list_backups", src="list_backups.c", extra_src=["lib/ext2fs/closefs.c"],
+         funcs=["ext2fs_list_backups", "ext2fs_bg_has_super"],
+         configs=[{"MODE": 1}, {"MODE": 2}, {"MODE": 0}],
+         unwind=4, unwindset=["ref_next_power.0:24", "test_root.0:22"], backends=["kissat", "z3", "default"],
+         bound="cursor state: every (three, five, seven) satisfying Inv for every 32-bit `last`; intermediate group g: all 2^32"),
     dict(name="flush_backups", src="flush_backups.c", extra_src=["lib/ext2fs/blknum.c"],
          funcs=["ext2fs_flush2", "ext2fs_super_and_bgd_loc2", "ext2fs_bg_has_super", "write_backup_super",
                 "ext2fs_descriptor_block_loc2", "write_primary_superblock"],
